@@ -106,7 +106,9 @@ TOK = ["aa", "'", '"', "it's", "James'", '"q', 'q"', "'q", "q'", '"q r"', "'q r'
        "www.u.v/O'Reilly", "www.u.v/it's", "<o'r@b.cc>",
        # appended later: angle-bracket runs that are NOT inline HTML (their quotes are prose and get converted; the wrapper must
        # not treat the run differently before and after the conversion), and a private-use character
-       "<your team's name>", "<y and \"z > w\" more>", "<a b='it''s'>", "\ue000"]   # (a URL written as link TEXT is prose: not included)
+       "<your team's name>", "<y and \"z > w\" more>", "<a b='it''s'>", "\ue000",
+       # appended later: a sentence that ends in a contraction (the sentence wrapper runs after the conversion and must see the same ends)
+       "didn't.", "it's?", "don't!\""]   # (a URL written as link TEXT is prose: not included)
 REPS = [TOK.index(t) for t in ("aa", "it's", '"q', 'q"', '"q r"', "`it's \"c\"`", "{% t a=\"x\" b='y' %}", "**\"b\"**", "<http://u/it's>")]
 
 _PROTECT = re.compile(
